@@ -20,7 +20,7 @@ func hSignedRequest(ts, nonce string) (*http.Request, []byte) {
 }
 
 // verif:harness props=C09 tier=quick native=yes weight=10
-// verif:bounds route /x with HMAC; a valid signed request, then 0..2 successful configuration reloads (real reloadConfig, file/parse/compile stubbed to return the same configuration), then the byte-identical replay; both arrive at arbitrary instants inside the tolerance window
+// verif:bounds route /x with HMAC; a valid signed request, 0..2 successful configuration reloads (real reloadConfig, file/parse/compile stubbed to return the same configuration) after it or while it is in flight (authenticator fetched before, verified after), then the byte-identical replay; both arrive at arbitrary instants inside the tolerance window
 func VerifC09ReplayAcrossReload() {
 	c := config.Compiled{Routes: []config.CompiledRoute{{Path: "/x", AuthHMACSecrets: []string{"raw:k0"}, Pull: &config.PullConfig{Path: "/p"}}}, PathToRoute: map[string]string{"/p": "/x"}}
 	state := newRuntimeState(c)
@@ -33,8 +33,12 @@ func VerifC09ReplayAcrossReload() {
 	a1 := state.hmacAuthFor("/x")
 	a1.Now = func() time.Time { return t1 }
 	r1, body := hSignedRequest("1700000000", "n1")
-	err1 := a1.Verify(r1, "/x", body)
-	vrt.Assert("C09.reload.first-request-accepted", err1 == nil)
+	// the first request may be in flight while the reloads happen: it fetched its authenticator before them and verifies after
+	inFlight := vrt.Bool("first-request-in-flight-during-the-reloads")
+	var err1 error
+	if !inFlight {
+		err1 = a1.Verify(r1, "/x", body)
+	}
 	reloads := vrt.Choose("reloads", 3)
 	running := c
 	for i := 0; i < reloads; i++ {
@@ -42,6 +46,10 @@ func VerifC09ReplayAcrossReload() {
 		running, ok = hReloadSame(running, state)
 		vrt.Assert("C09.reload.reload-succeeds", ok)
 	}
+	if inFlight {
+		err1 = a1.Verify(r1, "/x", body)
+	}
+	vrt.Assert("C09.reload.first-request-accepted", err1 == nil)
 	a2 := state.hmacAuthFor("/x")
 	a2.Now = func() time.Time { return t2 }
 	r2, _ := hSignedRequest("1700000000", "n1")
